@@ -69,6 +69,32 @@ def single_set(rng, pack):
     return samples
 
 
+def levels_set(rng):
+    """A multi-file set whose reference segments mix short tandem repeats (compressed at the 'repetitive' zstd level)
+    with ordinary sequence (tuple-packed, another level) and whose samples produce full delta packs (a third level),
+    large enough for the levels to give different frames: a seeded change that made the zstd level depend on which
+    group a worker happened to claim first went unnoticed before inputs of this shape were generated."""
+    def contig():
+        out = []
+        while sum(len(x) for x in out) < rng.randint(15000, 30000):
+            if rng.random() < 0.5:
+                unit = gs.rand_seq(rng, rng.randint(2, 30))
+                out.append(unit * rng.randint(20, 120))
+            else:
+                out.append(gs.rand_seq(rng, rng.randint(800, 4000)))
+        return "".join(out)
+    base = [contig() for _ in range(rng.randint(2, 3))]
+    return [(f"S{si:03d}", [(f"chr{c}", b if si == 0 else gs.mutate(rng, b, 0.01)) for c, b in enumerate(base)])
+            for si in range(rng.randint(3, 4))]
+
+
+def schedules_many_threads(rng, n):
+    out = ["1:0:2147483648"]
+    while len(out) < n:
+        out.append(f"{rng.choice([4, 8, 16, 16])}:{rng.choice([0, rng.randint(1, 1 << 30)])}:{rng.choice([1 << 31, 1 << 20, 65536])}")
+    return out[:n]
+
+
 def schedules(rng, n):
     out = ["1:0:2147483648", "1:0:1"]
     while len(out) < n:
@@ -102,6 +128,12 @@ def gen_cases(rng, tier):
         sc = schedules(rng, ns)
         for j in range(0, len(sc), 2):
             cases.append(f"det {d} {k},{seg},20,{pack},{ff} " + ",".join(sc[j:j + 2]))
+    for i in range(1 if tier == "quick" else 6):             # compression-level-sensitive inputs, many threads
+        d = os.path.join(root, f"lv{i}")
+        gs.write_case(d, levels_set(rng), mode="multi")
+        sc = schedules_many_threads(rng, 10 if tier == "quick" else 40)
+        for j in range(0, len(sc), 2):
+            cases.append(f"det {d} 21,2000,20,50,0 " + ",".join(sc[j:j + 2]))
     return cases
 
 
